@@ -83,9 +83,29 @@ Qed.
 
 (* ------------------------------------------------------------------ authentication *)
 
+(* the DNS reference of the code, as far as it is truthy, is the DNS name the endpoint knows *)
 Lemma dns_reference : forall passive peer_name peer_addr,
-  peer_dnsid passive peer_name peer_addr = known_dns_name passive peer_name peer_addr.
-Proof. intros [] n a; unfold peer_dnsid, known_dns_name; destruct (N.eqb n a); reflexivity. Qed.
+  known_dns_name passive peer_name peer_addr =
+  (if optid_truthy (peer_dnsid passive peer_name peer_addr) then peer_dnsid passive peer_name peer_addr else None).
+Proof.
+  intros [] n a; unfold peer_dnsid, known_dns_name, optid_truthy, id_truthy, TlsPolicy.empty_id, TlsSpec.empty_id;
+    try reflexivity.
+  destruct (N.eqb n a); [reflexivity|]. destruct (N.eqb n 0); reflexivity.
+Qed.
+
+Lemma dns_reference_some : forall passive peer_name peer_addr d,
+  known_dns_name passive peer_name peer_addr = Some d <->
+  (peer_dnsid passive peer_name peer_addr = Some d /\ d <> TlsSpec.empty_id).
+Proof.
+  intros p n a d. rewrite dns_reference.
+  destruct (peer_dnsid p n a) as [x|]; cbn [optid_truthy]; [|split; [discriminate|intros [H _]; discriminate]].
+  unfold id_truthy, TlsPolicy.empty_id, TlsSpec.empty_id.
+  destruct (N.eqb x 0) eqn:E; cbn [negb].
+  - apply N.eqb_eq in E. subst x. split; [discriminate|]. intros [H N]. inversion H; subst. contradiction.
+  - apply N.eqb_neq in E. split.
+    + intros H. inversion H; subst. split; [reflexivity|exact E].
+    + intros [H _]. exact H.
+Qed.
 
 Lemma nil_dec : forall (A : Type) (l : list A), l = [] \/ l <> [].
 Proof. intros A [|x xs]; [left; reflexivity | right; discriminate]. Qed.
@@ -94,20 +114,25 @@ Section Authn.
   Variables (passive : bool) (peer_name peer_addr node : N) (ips dnss uris : list N).
   Variables (rh rn : bool).
 
+  (* [dns]: what the specification calls the peer's DNS name; [cdns]: the reference the code passes to match_id *)
   Let dns := known_dns_name passive peer_name peer_addr.
+  Let cdns := peer_dnsid passive peer_name peer_addr.
   Let refuses := authn_refuses passive peer_name peer_addr node ips dnss uris rh rn.
+
+  Lemma dns_cases : (optid_truthy cdns = true /\ dns = cdns) \/ (optid_truthy cdns = false /\ dns = None).
+  Proof.
+    unfold dns. rewrite dns_reference. fold cdns. destruct (optid_truthy cdns); [left|right]; split; reflexivity.
+  Qed.
 
   (* the refusal decision in terms of the three match results *)
   Lemma refuses_unfold :
     refuses =
     (let ai := match_id (Some peer_addr) ips in
-     let ad := match_id dns dnss in
+     let ad := match_id cdns dnss in
      let an := match_id (Some node) uris in
-     ((true && is_mismatch ai) || (is_some dns && is_mismatch ad) || is_mismatch an)
-     || (negb (is_matched ai) && negb (is_matched ad) && rh) || (is_absent an && rn)).
-  Proof.
-    unfold refuses, authn_refuses, dns. rewrite dns_reference. reflexivity.
-  Qed.
+     ((true && is_mismatch ai) || (optid_truthy cdns && is_mismatch ad) || is_mismatch an)
+     || (negb (is_matched ai && true) && negb (is_matched ad && optid_truthy cdns) && rh) || (is_absent an && rn)).
+  Proof. reflexivity. Qed.
 
   Lemma authn_no_contradiction :
     refuses = false -> no_contradiction peer_addr dns node ips dnss uris.
@@ -117,8 +142,9 @@ Section Authn.
     cbn [andb] in Hi.
     repeat split.
     - apply not_mismatch_consistent. exact Hi.
-    - destruct dns as [d|]; [|intros r E; discriminate].
-      cbn in Hd. apply not_mismatch_consistent. exact Hd.
+    - destruct dns_cases as [[T E]|[T E]]; rewrite E.
+      + rewrite T in Hd. cbn [andb] in Hd. apply not_mismatch_consistent. exact Hd.
+      + intros r Er. discriminate.
     - apply not_mismatch_consistent. exact Hn.
   Qed.
 
@@ -138,13 +164,15 @@ Section Authn.
   Proof.
     rewrite refuses_unfold. cbv zeta. intros H R. subst rh.
     rewrite !orb_false_iff in H. destruct H as [[_ H] _].
-    rewrite andb_true_r in H.
+    rewrite !andb_true_r in H.
     unfold host_authenticated.
     destruct (match_idP (Some peer_addr) ips) as [Ei|ri Eri Ni Ii|Ni Mi].
-    - destruct (match_idP dns dnss) as [Ed|rd Erd Nd Id|Nd Md]; cbn in H; try discriminate.
+    - destruct dns_cases as [[T E]|[T E]]; rewrite T in H; rewrite E;
+        destruct (match_idP cdns dnss) as [Ed|rd Erd Nd Id|Nd Md]; cbn in H; try discriminate.
       right. exists rd. split; assumption.
     - left. inversion Eri; subst. assumption.
-    - destruct (match_idP dns dnss) as [Ed|rd Erd Nd Id|Nd Md]; cbn in H; try discriminate.
+    - destruct dns_cases as [[T E]|[T E]]; rewrite T in H; rewrite E;
+        destruct (match_idP cdns dnss) as [Ed|rd Erd Nd Id|Nd Md]; cbn in H; try discriminate.
       right. exists rd. split; assumption.
   Qed.
 
@@ -169,19 +197,23 @@ Section Authn.
     assert (Xn : is_mismatch (match_id (Some node) uris) = false).
     { destruct (match_idP (Some node) uris) as [E|r Er N I|N M]; try reflexivity.
       exfalso. apply (M node eq_refl). apply Cn; [reflexivity|exact N]. }
-    assert (Xd : is_some dns && is_mismatch (match_id dns dnss) = false).
-    { destruct dns as [d|] eqn:Edns; [|reflexivity]. cbn [is_some andb].
-      destruct (match_idP (Some d) dnss) as [E|r Er N I|N M]; try reflexivity.
-      exfalso. apply (M d eq_refl). apply Cd; [reflexivity|exact N]. }
-    assert (Xh : negb (is_matched (match_id (Some peer_addr) ips)) && negb (is_matched (match_id dns dnss)) && rh = false).
-    { destruct rh; [|apply andb_false_r]. rewrite andb_true_r.
+    assert (Xd : optid_truthy cdns && is_mismatch (match_id cdns dnss) = false).
+    { destruct dns_cases as [[T E]|[T E]]; rewrite T; [|reflexivity]. cbn [andb].
+      destruct (match_idP cdns dnss) as [E'|r Er N I|N M]; try reflexivity.
+      exfalso. destruct cdns as [d|] eqn:Ec; [|discriminate T].
+      apply (M d eq_refl). apply Cd; [exact E|exact N]. }
+    assert (Xh : negb (is_matched (match_id (Some peer_addr) ips) && true)
+                 && negb (is_matched (match_id cdns dnss) && optid_truthy cdns) && rh = false).
+    { destruct rh; [|apply andb_false_r]. rewrite !andb_true_r.
       destruct (Hh eq_refl) as [I|[d [Ed I]]].
       - destruct (match_idP (Some peer_addr) ips) as [E|r Er N I'|N M]; try reflexivity.
         + exfalso. rewrite E in I. destruct I.
         + exfalso. apply (M peer_addr eq_refl). exact I.
       - apply andb_false_iff. right.
-        destruct (match_idP dns dnss) as [E|r Er N I'|N M]; try reflexivity.
-        + exfalso. rewrite E in I. destruct I.
+        destruct dns_cases as [[T E]|[T E]]; [|rewrite E in Ed; discriminate].
+        rewrite T, andb_true_r. rewrite E in Ed.
+        destruct (match_idP cdns dnss) as [E'|r Er N I'|N M]; try reflexivity.
+        + exfalso. rewrite E' in I. destruct I.
         + exfalso. apply (M d Ed). exact I. }
     assert (Xu : is_absent (match_id (Some node) uris) && rn = false).
     { destruct rn; [|apply andb_false_r]. rewrite andb_true_r.
